@@ -96,6 +96,8 @@ def check_read_only(repo: Repo, rep: Report):
             v = classify_method(name)
             if qm.startswith("<untyped>") and s.targets and v != "forbidden":
                 continue
+            if qm.rsplit(".", 1)[0] in ("io.BytesIO", "io.StringIO", "BytesIO", "StringIO", "bytearray"):
+                continue  # in-memory buffer
             if name in ("extract", "extractall", "write", "writestr", "writelines", "truncate", "unlink", "rename", "add", "remove") and not qm.split(".")[0] in ("list", "set", "dict", "List", "Set", "Dict"):
                 if name in ("add", "remove") and not qm.startswith(("zipfile", "tarfile", "<untyped>")):
                     continue
